@@ -302,6 +302,29 @@ func (c *connlimitComp) Gen(rng *rand.Rand, idx int, tier string, targeted bool)
 		max = -1
 	}
 	h.Cfg = []int64{max}
+	if !targeted && rng.Intn(30) == 0 {
+		// a crowd: hundreds of connections of one source in flight at once (counts beyond one byte), or weights beyond 32 bits
+		hlib.Count("crowd_histories", 1)
+		if rng.Intn(2) == 0 {
+			max = hlib.Pick(rng, 255, 256, 300)
+			h.Cfg[0] = max
+			for k := int64(0); k < max+2; k++ {
+				h.Ops = append(h.Ops, []int64{0, 0, 1})
+			}
+			h.Ops = append(h.Ops, []int64{0, 1, 1})
+			for k := int64(0); k < max; k++ {
+				h.Ops = append(h.Ops, []int64{1, 0, 1, 0})
+			}
+			h.Ops = append(h.Ops, []int64{0, 0, 1}, []int64{0, 0, 1})
+		} else {
+			max = 1 << 33
+			h.Cfg[0] = max
+			big := int64(1) << 32
+			h.Ops = append(h.Ops, []int64{0, 0, big}, []int64{0, 0, big}, []int64{0, 0, 1}, []int64{0, 1, big + 1},
+				[]int64{1, 0, big, 0}, []int64{0, 0, 1}, []int64{0, 0, big}, []int64{0, 0, 1})
+		}
+		return h
+	}
 	nsrc := 1 + rng.Intn(4)
 	nops := 10 + rng.Intn(50)
 	if tier == "thorough" {
